@@ -103,9 +103,11 @@ type State struct {
 	Status                            int
 	ResH                              http.Header
 	ResCookies                        []Pair
-	API                               bool
-	ReqChunked                        bool
-	ResChunked                        bool
+	// HostHdr is the request's Host header (req.Host); a modifier that rewrites the URL does not change it
+	HostHdr    string
+	API        bool
+	ReqChunked bool
+	ResChunked bool
 }
 
 // HeaderValues returns the values of header name on the message of kind k,
@@ -114,8 +116,8 @@ type State struct {
 func (s *State) HeaderValues(k Kind, name string) []string {
 	switch http.CanonicalHeaderKey(name) {
 	case "Host":
-		if k == Req && s.Host != "" {
-			return []string{s.Host}
+		if k == Req && s.HostHdr != "" {
+			return []string{s.HostHdr}
 		}
 		return nil
 	case "Transfer-Encoding":
@@ -132,7 +134,7 @@ func (s *State) HeaderValues(k Kind, name string) []string {
 func NewState(m *Msg) *State {
 	s := &State{Method: m.Method, Scheme: m.Scheme, Host: m.Host, Path: m.Path, Query: m.Query,
 		ReqH: http.Header{}, ResH: http.Header{}, Status: m.Status, API: m.API,
-		ReqChunked: m.ReqChunked, ResChunked: m.ResChunked,
+		ReqChunked: m.ReqChunked, ResChunked: m.ResChunked, HostHdr: m.Host,
 		ReqCookies: m.Cookies, ResCookies: m.SetCk}
 	for _, p := range m.ReqHdr {
 		s.ReqH.Add(p.N, p.V)
